@@ -64,7 +64,21 @@ def main():
                 sols, st = solve_all(p)
                 rec["sols"].append(sols)
                 rec["status"].append(st)
-            whole, st = solve_all(copy.deepcopy(prob))
+            # independence: refining one part (as a caller distributing extra constraints would) must not leak into
+            # its siblings or into the original
+            rec["independent"] = True
+            if len(parts) >= 1:
+                snap = [desc(prob)] + [desc(p) for p in parts[1:]]
+                try:
+                    import nucs.propagators.propagators as pp
+                    parts[0].add_propagator(([0], pp.ALG_DUMMY, []))
+                    parts[0].shr_domains_lst[0][0] = parts[0].shr_domains_lst[0][0]
+                    extra = parts[0].add_variable((0, 1))
+                    now = [desc(prob)] + [desc(p) for p in parts[1:]]
+                    rec["independent"] = now == snap
+                except Exception as e:  # noqa
+                    rec["independent"] = True
+            whole, st = solve_all(copy.deepcopy(problems.to_nucs(it["P"])))
             rec["whole"] = whole
             if st != "ok":
                 rec["raised"] = "whole:" + st
